@@ -38,11 +38,11 @@ func c19State(s uint32) string {
 func init() {
 	Register(&Rule{
 		ID: "C19", Section: "5 C19",
-		Technique: "typestate dataflow over *ipdict.IPItems (new/inserted/sorted/published) in every function on the producer chain of IPTable.Update, dominance rules inside IPItems.Sort, sibling agreement between ipPairs.Less, the sort.Search predicate and the end-of-range test (evaluated on the three outcomes of bytes.Compare), normaliser agreement (net.IP.To16) between insert and lookup, lock-set on IPTable.ipItems, who-may-write census of IPItems.items",
+		Technique: "typestate dataflow over *ipdict.IPItems (new/inserted/sorted/published) in every function on the producer chain of IPTable.Update, dominance rules inside IPItems.Sort, sibling agreement between ipPairs.Less, the sort.Search predicate and the end-of-range test (evaluated on the three outcomes of bytes.Compare), normaliser agreement (net.IP.To16) between insert and lookup, lock-set on IPTable.ipItems, who-may-write census of IPItems.items, operand provenance and guard/store agreement in the merge step (checkMerge/mergeItems and helpers), tombstone write/test agreement",
 		Meta: core.Meta{
 			Level:       "other",
-			Explanation: "Decides: (a) every *IPItems handed to IPTable.Update comes from a producer (ipItemsMake, GlobalIPTableLoad -> TxtFileLoader.CheckAndLoad) that returns it only in state sorted (no InsertPair/InsertSingle or other mutator after the last Sort() on any path), Update is reached only when the producer's error is nil, and nothing mutates the value after it was published; the errors of InsertPair/InsertSingle are looked at by the producers, and a loader uses InsertSingle only under start == end; (b) IPItems.Sort sorts before mergeItems, sorts again on every path after it, and truncates items to len-mergedNum after that second sort; (c) ipPairs.Less orders by startIP descending and the sort.Search predicate in IPTable.Search is `items[i].startIP <= probe` (non-strict, same field, same direction), a hit is reported only for a set hit (HashSet.Exist(probe)) or under index < len && items[index].endIP >= probe with index the result of that sort.Search, on the items snapshot read under the lock; (d) stored bounds, stored singles and the probe are all net.IP.To16 values, InsertPair appends only after checkIPPair succeeded and checkIPPair accepts exactly start <= end; (e) IPTable.ipItems is read and written under t.lock; IPItems.items is written only by NewIPItems/InsertPair/Sort and its elements only by checkMerge/Swap. Not covered: the overlap arithmetic of mergeItems/checkMerge and its use of :: as a tombstone inside the value domain (ranges ending at ::/0.0.0.0), the non-strict ipPairs.Less, hash-set behaviour (C20), parsing of the dictionary files.",
-			RuleText:    "obligations = each return / Update / mutator event of the functions on the producer chain with the abstract state reaching it; the ordering facts of Sort; the comparison shapes of Less, the Search predicate, the range-end test and checkIPPair; each To16 normalisation site; each access of IPTable.ipItems; each writer of IPItems.items",
+			Explanation: "Decides: (a) every *IPItems handed to IPTable.Update comes from a producer (ipItemsMake, GlobalIPTableLoad -> TxtFileLoader.CheckAndLoad) that returns it only in state sorted (no InsertPair/InsertSingle or other mutator after the last Sort() on any path), Update is reached only when the producer's error is nil, and nothing mutates the value after it was published; the errors of InsertPair/InsertSingle are looked at by the producers, and a loader uses InsertSingle only under start == end; (b) IPItems.Sort sorts before mergeItems, sorts again on every path after it, and truncates items to len-mergedNum after that second sort; (c) ipPairs.Less orders by startIP descending and the sort.Search predicate in IPTable.Search is `items[i].startIP <= probe` (non-strict, same field, same direction), a hit is reported only for a set hit (HashSet.Exist(probe)) or under index < len && items[index].endIP >= probe with index the result of that sort.Search, on the items snapshot read under the lock; (d) stored bounds, stored singles and the probe are all net.IP.To16 values, InsertPair appends only after checkIPPair succeeded and checkIPPair accepts exactly start <= end; (e) IPTable.ipItems is read and written under t.lock; IPItems.items is written only by NewIPItems/InsertPair/Sort and its elements only by checkMerge/Swap.; (f) in the merge step (every in-package function reachable from IPItems.Sort): every bytes.Compare / Equal compares stored bounds (ipPair.startIP/endIP, possibly passed through a helper parameter) or net.IPv6zero/IPv4zero, never a value computed from a bound (address arithmetic wraps at the ends of the address space); a bound of one element is overwritten with the same bound of another element only under a guard that compares the absorbed element's endIP with the overwritten bound and holds for '>' and not for '<'; a merged entry gets both bounds set to net.IPv6zero; every 'already merged' test reads endIP (a startIP test only in conjunction with an endIP test on the same pair), and the value written as tombstone is one the tests compare endIP with. Not covered: that checkMerge is called with i < j on a descending slice and visits all pairs (loop bounds of mergeItems), the degenerate range ::-:: (it equals a tombstone), the odd index in mergeItems' inner IPv4zero test (items[i] instead of items[j]; harmless: tombstones are written as IPv6zero), the non-strict ipPairs.Less, hash-set behaviour (C20), parsing of the dictionary files. A correct saturating 'merge adjacent ranges' extension would be reported by merge-operands as a form the rule cannot follow.",
+			RuleText:    "obligations = each return / Update / mutator event of the functions on the producer chain with the abstract state reaching it; the ordering facts of Sort; the comparison shapes of Less, the Search predicate, the range-end test and checkIPPair; each To16 normalisation site; each access of IPTable.ipItems; each writer of IPItems.items; each comparison, each bound-overwriting store, each tombstone write and each zero test of the merge step",
 			Assumptions: []string{"sort.Sort leaves the slice ordered by Less; sort.Search returns the first index for which the predicate holds", "functions outside bfe_util/ipdict can reach IPItems.items only through the exported methods (the field is unexported)"},
 		},
 		Run: runC19,
@@ -61,6 +61,15 @@ func init() {
 			{Name: "search-unlocked", File: "bfe_util/ipdict/iptable.go", Old: "	var hit bool\n	t.lock.Lock()\n	ipItems := t.ipItems\n	t.lock.Unlock()", New: "	var hit bool\n	ipItems := t.ipItems", Expect: "table-lock"},
 			{Name: "pair-order-check-inverted", File: "bfe_util/ipdict/ipdict_util.go", Old: "	if bytes.Compare(startIP16, endIP16) == 1 {", New: "	if bytes.Compare(startIP16, endIP16) == -1 {", Expect: "pair-order"},
 			{Name: "single-pair-dispatch-inverted", File: "bfe_util/ipdict/txt_load/txt_load.go", Old: "		if bytes.Compare(startIP, endIP) == 0 {\n			// startIp == endIP insert single", New: "		if bytes.Compare(startIP, endIP) != 0 {\n			// startIp == endIP insert single", Expect: "single-dispatch"},
+			{Name: "merge-compares-derived-bound", File: "bfe_util/ipdict/ipdict.go", Old: "		if bytes.Compare(items[j].endIP, items[i].endIP) >= 0 {", New: "		if bytes.Compare(items[j].endIP.Mask(net.CIDRMask(120, 128)), items[i].endIP) >= 0 {", Expect: "merge-operands|IPItems.checkMerge"},
+			{Name: "merge-end-shrinks", File: "bfe_util/ipdict/ipdict.go", Old: "		if bytes.Compare(items[j].endIP, items[i].endIP) >= 0 {", New: "		if bytes.Compare(items[j].endIP, items[i].endIP) <= 0 {", Expect: "merge-guard|IPItems.checkMerge:absorb-end"},
+			{Name: "merge-trigger-reads-own-end", File: "bfe_util/ipdict/ipdict.go", Old: "	if bytes.Compare(items[j].endIP, items[i].startIP) >= 0 {", New: "	if bytes.Compare(items[i].endIP, items[i].startIP) >= 0 {", Expect: "merge-guard|IPItems.checkMerge:absorb-start"},
+			{Name: "tombstone-test-on-start-outer-loop", File: "bfe_util/ipdict/ipdict.go", Old: "		if items[i].endIP.Equal(net.IPv6zero) || items[i].endIP.Equal(net.IPv4zero) {", New: "		if items[i].startIP.Equal(net.IPv6zero) || items[i].startIP.Equal(net.IPv4zero) {", Expect: "tombstone-test|IPItems.mergeItems"},
+			{Name: "tombstone-keeps-start", File: "bfe_util/ipdict/ipdict.go", Old: "		items[j].startIP = net.IPv6zero\n", New: "", Expect: "tombstone-write|IPItems.checkMerge"},
+			{Name: "tombstone-written-as-v4-zero", File: "bfe_util/ipdict/ipdict.go", Old: "			items[k].startIP = net.IPv6zero\n			items[k].endIP = net.IPv6zero", New: "			items[k].startIP = net.IPv4zero\n			items[k].endIP = net.IPv4zero", Expect: "tombstone-write|IPItems.checkMerge"},
+			{Name: "silent-merged-helper-on-end", File: "bfe_util/ipdict/ipdict.go", Old: "			if items[k].endIP.Equal(net.IPv6zero) || items[k].endIP.Equal(net.IPv4zero) {\n				continue\n			}\n\n			items[k].startIP = net.IPv6zero\n			items[k].endIP = net.IPv6zero\n			mergedNum++\n		}\n	}\n\n	return mergedNum\n}\n", New: "			if items[k].merged() {\n				continue\n			}\n\n			items[k].startIP = net.IPv6zero\n			items[k].endIP = net.IPv6zero\n			mergedNum++\n		}\n	}\n\n	return mergedNum\n}\n\nfunc (p ipPair) merged() bool {\n	return p.endIP.Equal(net.IPv6zero) || p.endIP.Equal(net.IPv4zero)\n}\n", Silent: true},
+			{Name: "silent-overlap-helper", File: "bfe_util/ipdict/ipdict.go", Old: "	if bytes.Compare(items[j].endIP, items[i].startIP) >= 0 {\n		items[i].startIP = items[j].startIP\n		if bytes.Compare(items[j].endIP, items[i].endIP) >= 0 {", New: "	lower, upper := items[j], items[i]\n	_ = upper\n	if bytes.Compare(items[j].endIP, items[i].startIP) >= 0 {\n		items[i].startIP = lower.startIP\n		if bytes.Compare(items[j].endIP, items[i].endIP) >= 0 {", Silent: true},
+			{Name: "silent-tombstone-helper", File: "bfe_util/ipdict/ipdict.go", Old: "		items[j].startIP = net.IPv6zero\n		items[j].endIP = net.IPv6zero\n\n		mergedNum++\n", New: "		func(p *ipPair) {\n			p.startIP = net.IPv6zero\n			p.endIP = net.IPv6zero\n		}(&items[j])\n\n		mergedNum++\n", Silent: true},
 			{Name: "silent-search-returns-comparison", File: "bfe_util/ipdict/iptable.go", Old: "	if i < itemsLen {\n		if bytes.Compare(items[i].endIP, ip16) >= 0 {\n			hit = true\n		}\n	}\n\n	return hit", New: "	if i >= itemsLen {\n		return hit\n	}\n	return bytes.Compare(items[i].endIP, ip16) >= 0", Silent: true},
 			{Name: "silent-rename-and-log", File: "bfe_modules/mod_trust_clientip/mod_trust_clientip.go", Old: "	// Load succ, sort dict\n	ipItems.Sort()\n	ipItems.Version = conf.Version\n\n	return ipItems, nil", New: "	// Load succ, sort dict\n	ipItems.Version = conf.Version\n	result := ipItems\n	result.Sort()\n	_ = fmt.Sprintf(\"%d items\", result.Length())\n\n	return result, nil", Silent: true},
 		},
@@ -221,6 +230,9 @@ func runC19(c *core.Ctx) {
 
 	// ---- (d) normalisation and pair order ------------------------------------
 	x.normRules(itemsFld, setFld, startFld, endFld)
+
+	// ---- (f) the merge step between the two sorts -----------------------------
+	x.mergeRules(startFld, endFld)
 
 	// ---- (e) IPTable.ipItems under t.lock -------------------------------------
 	for _, fn := range pkgFns {
